@@ -39,10 +39,16 @@ def scratch_copy():
 
 def run_witness(path, verbose=False):
     exp = None
+    silent = None
     for line in open(path):
         m = re.match(r"#\s*expect:\s*(\S+)\s+(\S+)\s+(.*)$", line)
         if m:
             exp = (m.group(1), m.group(2), m.group(3).strip())
+            break
+        m = re.match(r"#\s*expect-silent:\s*(\S+)", line)
+        if m:
+            silent = m.group(1)
+            exp = (silent, "-", "-")
             break
     if not exp:
         return "bad", "no expect line"
@@ -63,6 +69,10 @@ def run_witness(path, verbose=False):
         viol = "VIOLATION property=%s" % exp[0] in out
         if verbose:
             print(out)
+        if silent:
+            if r.returncode == 0 and not viol:
+                return "silent", "(behaviour-preserving edit: no alarm)"
+            return "missed", "behaviour-preserving edit raised an alarm: rc=%d" % r.returncode
         if fired and viol and r.returncode == 1:
             return "fired", ""
         return "missed", "rc=%d fired=%s violation=%s" % (r.returncode, fired, viol)
@@ -82,7 +92,7 @@ def main():
     res = []
     for f in files:
         head = open(f).read(400)
-        if a.property and ("expect: %s " % a.property) not in head:
+        if a.property and ("expect: %s " % a.property) not in head and ("expect-silent: %s" % a.property) not in head:
             continue
         if a.rule and (" %s " % a.rule) not in head:
             continue
@@ -91,8 +101,8 @@ def main():
         print("%-8s %s %s" % (st, os.path.relpath(f, HERE), why))
         if st in ("missed", "bad"):
             bad += 1
-    print("witnesses: %d fired, %d skipped, %d missed" % (
-        sum(1 for r in res if r[1] == "fired"), sum(1 for r in res if r[1] == "skipped"), bad))
+    print("witnesses: %d fired, %d silent-as-required, %d skipped, %d missed" % (
+        sum(1 for r in res if r[1] == "fired"), sum(1 for r in res if r[1] == "silent"), sum(1 for r in res if r[1] == "skipped"), bad))
     return 1 if bad else 0
 
 
